@@ -267,6 +267,28 @@ func (c *Ctx) specialInputs(name string) []wfInput {
 // (decoded through Reader, chunked readers and File plain/.gz; oracle only).
 func (c *Ctx) hugeInputs(name string) []wfInput {
 	var out []wfInput
+	// several long lines in ONE stream (scratch state of a line reader surviving from one long line to the next)
+	for _, L := range []int{5000, 70000} {
+		a, b := bytes.Repeat([]byte("ACGT"), L/4), bytes.Repeat([]byte("TTGCA"), L/5+7)
+		d := fmt.Sprintf("three records with fields of %d, %d and %d bytes", len(a), len(b), len(a)+3)
+		a3 := append(append([]byte(nil), a...), 'G', 'G', 'G')
+		switch name {
+		case "fasta":
+			out = append(out, wfInput{[]byte(">n1\n" + string(a) + "\n>" + string(b) + "\nAC\n>n3\n" + string(a3) + "\n"),
+				"R " + hx([]byte("n1")) + " " + hx(a) + "|R " + hx(b) + " " + hx([]byte("AC")) + "|R " + hx([]byte("n3")) + " " + hx(a3), d})
+		case "fastq":
+			q := func(n int) []byte { return bytes.Repeat([]byte("I"), n) }
+			out = append(out, fastqInput([]*fastq.Fastq{{Name: []byte("a"), Sequence: a, Quals: q(len(a))}, {Name: b, Sequence: []byte("A"), Quals: []byte("I")}, {Name: []byte("c"), Sequence: a3, Quals: q(len(a3))}}, d))
+		case "sam", "samh":
+			r1, r2, r3 := plainSam("a"), plainSam("b"), plainSam("c")
+			r1.Seq, r2.Cigar, r3.Qual = string(a), string(b), string(a3)
+			out = append(out, samInput(name, nil, []*sam.SAM{r1, r2, r3}, d))
+		case "bed":
+			out = append(out, bedInput([]*bed.BED{{N: 4, Chrom: "a", ChromStart: 1, ChromEnd: 2, Name: string(a)}, {N: 4, Chrom: string(b), ChromStart: 1, ChromEnd: 2, Name: "n"}, {N: 4, Chrom: "d", ChromStart: 3, ChromEnd: 4, Name: string(a3)}}, d))
+		case "newick":
+			out = append(out, nwkInput([]*newick.Node{tree1(string(a)), tree1("x y " + string(b)), tree1("r", tree1(string(a3)), tree1("it's"))}, d))
+		}
+	}
 	for _, L := range []int{100000, 131073, 270000} {
 		run := bytes.Repeat([]byte("ACGT"), L/4+1)[:L]
 		d := fmt.Sprintf("a field of %d bytes", L)
